@@ -23,7 +23,8 @@ echo "rc=$RC_WITHOUT"
 git apply seed_out/patch.diff
 # existing suite only: temporarily move demo files away
 echo "== existing suite only WITH change"
-DEMOFILES=$(git status --porcelain | grep '^??' | awk '{print $2}' | grep -v '^seed_out' )
+# untracked files that the patch itself does not create (a change may add source files: those stay)
+DEMOFILES=$(git status --porcelain -uall | grep '^??' | awk '{print $2}' | grep -v '^seed_out' | while read f; do grep -q "^+++ b/$f\$" seed_out/patch.diff || echo $f; done)
 mkdir -p /tmp/seed_hold_$ID; for f in $DEMOFILES; do mkdir -p /tmp/seed_hold_$ID/$(dirname $f); mv $f /tmp/seed_hold_$ID/$f; done
 mv seed_out /tmp/seed_hold_$ID/seed_out
 go test -vet=off -count=1 ./... > /tmp/seed_suite_only_$ID.log 2>&1; RC_SUITE=$?
